@@ -1,6 +1,8 @@
 package c02
 
 import (
+	"fmt"
+
 	"verif/internal/rt"
 )
 
@@ -118,4 +120,128 @@ func subsumes(g, sp *rt.Term) bool {
 		seen[t.I] = true
 	}
 	return true
+}
+
+// stoAny says whether the pair is subject to occurs check under *some* order of the Herbrand algorithm
+// (ISO 7.3.3 quantifies over the orders; the engine has several: left to right in =/2, tail before
+// elements when a clause head holds a partial list). It over-approximates: the congruence closure of
+// a = b is built without stopping at clashes (a class may hold structures of different functors, all
+// of them are decomposed against their like), and the pair counts as STO if the closure has a cycle -
+// every equation any order can derive before it stops is in that closure, so every positive occurs
+// check of any order is a cycle of it.
+func stoAny(a, b *rt.Term) bool {
+	type node struct {
+		t      *rt.Term
+		parent int
+		comps  []int // compound members of the class (at the root)
+	}
+	var nodes []node
+	varNode := map[int64]int{}
+	var mk func(t *rt.Term) int
+	sub := map[*rt.Term]int{}
+	mk = func(t *rt.Term) int {
+		if t.K == rt.Var {
+			if n, ok := varNode[t.I]; ok {
+				return n
+			}
+			nodes = append(nodes, node{t: t, parent: len(nodes)})
+			varNode[t.I] = len(nodes) - 1
+			return len(nodes) - 1
+		}
+		if n, ok := sub[t]; ok {
+			return n
+		}
+		n := len(nodes)
+		nodes = append(nodes, node{t: t, parent: n})
+		sub[t] = n
+		if t.K == rt.Comp {
+			nodes[n].comps = []int{n}
+			for _, x := range t.A {
+				mk(x)
+			}
+		}
+		return n
+	}
+	var find func(n int) int
+	find = func(n int) int {
+		for nodes[n].parent != n {
+			nodes[n].parent = nodes[nodes[n].parent].parent
+			n = nodes[n].parent
+		}
+		return n
+	}
+	type pair struct{ x, y int }
+	work := []pair{{mk(a), mk(b)}}
+	for len(work) > 0 {
+		p := work[len(work)-1]
+		work = work[:len(work)-1]
+		rx, ry := find(p.x), find(p.y)
+		if rx == ry {
+			continue
+		}
+		for _, cx := range nodes[rx].comps {
+			for _, cy := range nodes[ry].comps {
+				tx, ty := nodes[cx].t, nodes[cy].t
+				if tx.S == ty.S && len(tx.A) == len(ty.A) {
+					for k := range tx.A {
+						work = append(work, pair{mk(tx.A[k]), mk(ty.A[k])})
+					}
+				}
+			}
+		}
+		nodes[ry].parent = rx
+		nodes[rx].comps = append(nodes[rx].comps, nodes[ry].comps...)
+	}
+	// cycle among classes: class -> classes of the arguments of its compound members
+	state := map[int]int{}
+	var visit func(c int) bool
+	visit = func(c int) bool {
+		switch state[c] {
+		case 1:
+			return true
+		case 2:
+			return false
+		}
+		state[c] = 1
+		for _, m := range nodes[c].comps {
+			for _, x := range nodes[m].t.A {
+				if visit(find(mk(x))) {
+					return true
+				}
+			}
+		}
+		state[c] = 2
+		return false
+	}
+	for n := range nodes {
+		if visit(find(n)) {
+			return true
+		}
+	}
+	return false
+}
+
+// stoSelfTest checks stoAny on worked examples (run by shard 0).
+func stoSelfTest() error {
+	v := func(i int64) *rt.Term { return rt.V(i) }
+	f := func(a ...*rt.Term) *rt.Term { return rt.C("f", a...) }
+	g := func(a ...*rt.Term) *rt.Term { return rt.C("g", a...) }
+	for k, e := range []struct {
+		a, b *rt.Term
+		want bool
+	}{
+		{f(v(0), v(1)), f(v(1), v(0)), false},
+		{f(v(0)), f(g(v(0))), true},
+		{f(rt.I(1), v(0)), f(rt.I(2), g(v(0))), true},             // clash first from the left, occurs check from the right
+		{f(v(0), rt.I(1)), f(g(v(0)), rt.I(2)), true},             // the other way round
+		{f(v(0), v(0), v(1)), f(f(v(1)), g(v(2)), g(v(0))), true}, // X=f(Y), X=g(Z) clash; Y=g(X) closes a cycle through the first binding
+		{f(v(0), v(0)), f(rt.A("a"), rt.A("b")), false},
+		{rt.List([]*rt.Term{rt.A("a"), v(0)}, v(1)), rt.List([]*rt.Term{rt.A("b"), v(2)}, rt.List([]*rt.Term{v(1)}, nil)), true}, // [a,X|T] vs [b,Y,T]: clash at the head, T = [T] in the tail
+		{f(v(0), v(1)), f(g(v(1)), g(v(2))), false},
+	} {
+		if got := stoAny(e.a, e.b); got != e.want {
+			return fmt.Errorf("stoAny example %d (%s vs %s): got %v", k, e.a, e.b, got)
+		}
+	}
+	return nil
 }
